@@ -50,6 +50,11 @@ package tokenizers
 //@     decreases len(Keywords) - rangeindex
 //
 // a number without sign, optional exponent [eE][+-]?digits taken only when a digit follows
+// the expression number grammar: the generic number without a sign, then an optional exponent [eE][+-]?digits
+//@ spec expMark(s seq[rune], k int) bool = chr(s, numC(s, k)) == 101 || chr(s, numC(s, k)) == 69
+//@ spec expSgn(s seq[rune], k int) int = (chr(s, numC(s, k) + 1) == 45 || chr(s, numC(s, k) + 1) == 43) ? numC(s, k) + 2 : numC(s, k) + 1
+//@ spec hasExp(s seq[rune], k int) bool = expMark(s, k) && isdig(chr(s, expSgn(s, k)))
+//@ spec expEnd(s seq[rune], k int) int = hasExp(s, k) ? digEnd(s, expSgn(s, k)) : numC(s, k)
 //@ func (c *ExpressionNumberState) NextToken
 //@   requires c.GenericNumberState != nil && tokenizer != nil && symState(tokenizer) != nil
 //@   requires c != nil && isScanner(scanner) && sc(scanner).position + 1 < len(sc(scanner).content)
@@ -57,12 +62,21 @@ package tokenizers
 //@   ensures[C04,C12] result != nil && isScanner(scanner) && sc(scanner).content == old(sc(scanner).content) && result.typ != tokenizers.Eof
 //@   ensures[C04] spans(result.value, scanner, old(cur(scanner)), cur(scanner))
 //@   ensures[C12] result.line == L(seq(sc(scanner).content), old(cur(scanner))) && result.column == C(seq(sc(scanner).content), old(cur(scanner)))
+// "numbers in all notations"; "a sign is a symbol in expressions": a leading minus goes to the symbol state
+//@   ensures[C13] sc(scanner).content[old(cur(scanner))] != 45 && numGot(seq(sc(scanner).content), old(cur(scanner))) ==>
+//@       cur(scanner) == expEnd(seq(sc(scanner).content), old(cur(scanner))) &&
+//@       result.typ == ((numDot(seq(sc(scanner).content), old(cur(scanner))) || hasExp(seq(sc(scanner).content), old(cur(scanner)))) ? tokenizers.Float : tokenizers.Integer)
 //@   assigns sc(scanner).position, sc(scanner).line, sc(scanner).column
 //@   nopanic
 //@   loop 0
 //@     invariant isScanner(scanner) && sc(scanner).content == old(sc(scanner).content)
 //@     invariant old(sc(scanner).position) + 1 <= sc(scanner).position && sc(scanner).position <= len(sc(scanner).content)
 //@     invariant nextChar == chr(seq(sc(scanner).content), sc(scanner).position + 1)
+//@     invariant sc(scanner).content[old(cur(scanner))] != 45
+//@     invariant numGot(seq(sc(scanner).content), old(cur(scanner))) ==>
+//@         old(cur(scanner)) + rlen(token.value) == numC(seq(sc(scanner).content), old(cur(scanner))) && hasExp(seq(sc(scanner).content), old(cur(scanner))) &&
+//@         expSgn(seq(sc(scanner).content), old(cur(scanner))) <= sc(scanner).position + 1 &&
+//@         digEnd(seq(sc(scanner).content), expSgn(seq(sc(scanner).content), old(cur(scanner)))) == digEnd(seq(sc(scanner).content), sc(scanner).position + 1)
 //@     invariant spans(token.value, scanner, old(cur(scanner)), old(cur(scanner)) + rlen(token.value))
 //@     invariant spans(builder(tokenValue), scanner, old(cur(scanner)) + rlen(token.value), sc(scanner).position + 1)
 //@     invariant token != nil && line == L(seq(sc(scanner).content), old(cur(scanner))) && column == C(seq(sc(scanner).content), old(cur(scanner)))
